@@ -624,6 +624,164 @@ def job_derivation(job, dtype, word='ab'):
     return job.solve()
 
 
+# ------------------------------------------------------------------------------------------ generic language checkers
+# check_<kind>_language_from_file / _from_words for DFA, NFA, regexp and grammar answers against DFA, NFA, regexp or
+# word-list references; check_cfg_accepts_rejects, notebook_experimental.check_cfg_accepts / check_cfg_rejects
+FILES = {}
+LANG_FAMILIES = {
+    # (variables, fixed rules (start rule first), symbolic candidate rules)
+    'ab': (['S', 'A'], [('S', 'aA')], [('S', ''), ('A', 'b'), ('A', 'aA'), ('S', 'SS'), ('A', ''), ('S', 'b'), ('A', 'S')]),
+    'nest': (['S', 'T'], [('S', 'aSb')], [('S', ''), ('S', 'T'), ('T', 'a'), ('T', 'TT'), ('S', 'ab'), ('T', ''), ('S', 'ba')]),
+}
+
+
+def _stub_files():
+    import gambatools.notebook as NB
+    NB.read_utf8_text = lambda filename: FILES[filename]
+
+
+def _sym_lang(kind, spec, tag, syms):
+    """symbolic language object -> dict(text, acc(w) literal, json decoder, nstates)"""
+    from .oracles import DfaView, NfaView
+    if kind == 'dfa':
+        from gambatools.dfa_algorithms import print_dfa
+        D, names, _ = c.sym_dfa(spec['n'], len(syms), tag=tag, syms=list(syms))
+        v = DfaView(D, names, list(syms))
+        return {'obj': D, 'text': print_dfa(D), 'acc': v.accepts, 'json': v.to_json, 'nstates': spec['n']}
+    if kind == 'nfa':
+        from gambatools.nfa_algorithms import print_nfa
+        N, names, _ = c.sym_nfa(spec['n'], len(syms), eps=spec.get('eps', '_'), tag=tag, partial=False, syms=list(syms))
+        v = NfaView(N, names, list(syms))
+        return {'obj': N, 'text': print_nfa(N), 'acc': v.accepts, 'json': v.to_json, 'nstates': spec['n']}
+    if kind == 'regexp':
+        import gambatools.regexp as R
+        from .regexp_sym import shaped, Sem, regexp_json
+        from .C05 import _tup
+        r = shaped(_tup(spec['shape']), list(syms), tag=tag)
+        sem = Sem()
+        return {'obj': r, 'text': R.print_regexp_simple(r), 'acc': lambda w: sem.member(r, w), 'json': lambda mv: regexp_json(r, mv), 'nstates': 0}
+    if kind == 'cfg':
+        from .cfg_sym import GrammarSem
+        variables, fixed, symbolic = LANG_FAMILIES[spec['family']]
+        symbolic = symbolic[:spec.get('nsym', 6)]
+        entries = [(TRUE, X, tuple(r)) for X, r in fixed] + [(E.fresh('%s%d_%s_%s' % (tag, i, X, r or 'eps')), X, tuple(r)) for i, (X, r) in enumerate(symbolic)]
+        eps = spec.get('eps', 'ε')
+        text = L.GStr([(bit, '%s -> %s\n' % (X, ''.join(rhs) or eps)) for bit, X, rhs in entries])
+        js = lambda mv: {'V': list(variables), 'Sigma': list(syms), 'S': variables[0], 'R': [[X, list(rhs)] for bit, X, rhs in entries if mv(bit)], 'eps': eps}
+        return {'obj': None, 'text': text, 'acc': lambda w: GrammarSem(entries, variables, w).derives(variables[0]), 'json': js, 'nstates': 0}
+    raise ValueError(kind)
+
+
+def _parse_words(word_list):
+    return set('' if w in ('ε', '_') else w for w in word_list.split())
+
+
+def job_lang(job, front, ans, ref, syms, length, max_states=0, garbage=True):
+    """front: 'from_file' | 'from_words'; ans = [kind, spec]; ref = [kind, spec] or ['words', 'word list']"""
+    import gambatools.notebook as NB
+    job.functions('notebook', ['check_language_from_file', 'check_language_from_words', 'language_parser', 'check_max_states', 'print_feedback',
+                               'check_%s_language_%s' % (ans[0], front)])
+    job.functions('language_generator', ['check_equal_languages', 'generate_language', 'compare_languages'])
+    d = E.dag
+    c.set_exhaustive(14)
+    E.while_bound = 60
+    syms = list(syms)
+    a = _sym_lang(ans[0], ans[1], 'A', syms)
+    gb = E.fresh('garbage') if garbage and ans[0] in ('dfa', 'nfa') else FALSE
+    atext = with_garbage(a['text'], gb) if gb != FALSE else a['text']
+    job.inputs['answer'] = a['obj']
+    job.decoders['answer'] = a['json']
+    rpd = {'front': front, 'ans_kind': ans[0], 'answer': a['json'], 'syms': syms, 'length': length, 'max_states': max_states,
+           'garbage': (lambda mv: bool(mv(gb))) if gb != FALSE else False}
+    words = c.words_upto(syms, length)
+    if front == 'from_file':
+        _stub_files()
+        r = _sym_lang(ref[0], ref[1], 'R', syms)
+        fname = 'ref.' + ref[0]
+        FILES[fname] = r['text']
+        job.inputs['reference'] = r['obj']
+        job.decoders['reference'] = r['json']
+        rpd.update({'ref_kind': ref[0], 'reference': r['json']})
+        refacc = {w: r['acc'](w) for w in words}
+        fn = getattr(NB, 'check_%s_language_from_file' % ans[0])
+        rp = ('lang', rpd)
+        ev = run_checker(fn, atext, fname, length)
+    else:
+        refw = _parse_words(ref[1])
+        rpd.update({'ref_kind': 'words', 'reference': ref[1]})
+        words = sorted(set(words) | refw, key=lambda w: (len(w), w))
+        refacc = {w: (TRUE if w in refw else FALSE) for w in words}
+        fn = getattr(NB, 'check_%s_language_from_words' % ans[0])
+        rp = ('lang', rpd)
+        if ans[0] in ('dfa', 'nfa'):
+            ev = run_checker(fn, atext, ref[1], length, max_states)
+        else:
+            ev = run_checker(fn, atext, ref[1], length)
+    job.lifted()
+    ok = said_ok(ev)
+    import os
+    if os.environ.get('C12_DEBUG'):
+        print('DEBUG messages', list(messages(ev).keys()), [(k, m[:80]) for _, k, m in E.errors][:5], file=__import__('sys').stderr)
+    inb = lambda w: len(w) <= length and all(ch in syms for ch in w)
+    ansacc = {w: (a['acc'](w) if inb(w) else FALSE) for w in words}
+    too_many = TRUE if (ans[0] in ('dfa', 'nfa') and front == 'from_words' and 0 < max_states < a['nstates']) else FALSE
+    job.oblige('OK only if answer and reference agree on every word up to the length bound (and the answer is well-formed and within the state limit)',
+               d.and_(ok, d.any_([gb, too_many, d.any_(d.iff(ansacc[w], refacc[w]) ^ 1 for w in words)])), replay=rp)
+    word_feedback_obligations(job, ev, words, ansacc, refacc, rp, fn.__name__)
+    job.must_reach('something is printed', said(ev, lambda t: True))
+    job.must_reach('OK is printed for some answer', ok)
+    job.failures_as_obligations(replay=rp)
+    job.sample_replays = 3
+    return job.solve()
+
+
+def job_cfg_lists(job, front, family, accepted, rejected, nsym=6):
+    """check_cfg_accepts_rejects / notebook_experimental.check_cfg_accepts / check_cfg_rejects on a symbolic grammar text"""
+    import gambatools.notebook as NB
+    import gambatools.notebook_experimental as NX
+    job.functions('notebook', ['check_cfg_accepts_rejects', 'check_automaton_accepts_rejects'])
+    job.functions('notebook_experimental', ['check_cfg_accepts', 'check_cfg_rejects'])
+    d = E.dag
+    c.set_exhaustive(14)
+    E.while_bound = 60
+    syms = ['a', 'b']
+    a = _sym_lang('cfg', {'family': family, 'nsym': nsym}, 'A', syms)
+    job.inputs['answer'] = None
+    job.decoders['answer'] = a['json']
+    if front == 'accepts':
+        rejected = ''
+    elif front == 'rejects':
+        accepted = ''
+    rp = ('cfg_lists', {'front': front, 'answer': a['json'], 'accepted': accepted, 'rejected': rejected})
+    if front == 'accepts_rejects':
+        ev = run_checker(NB.check_cfg_accepts_rejects, a['text'], accepted, rejected)
+    elif front == 'accepts':
+        ev = run_checker(NX.check_cfg_accepts, a['text'], accepted)
+    else:
+        ev = run_checker(NX.check_cfg_rejects, a['text'], rejected)
+    job.lifted()
+    ok = said_ok(ev)
+    acc = sorted(_parse_words(accepted)) if accepted.strip() else []
+    rej = sorted(_parse_words(rejected)) if rejected.strip() else []
+    A = {w: a['acc'](w) for w in set(acc) | set(rej)}
+    crit = d.and_(d.all_(A[w] for w in acc), d.all_(A[w] ^ 1 for w in rej))
+    job.oblige('OK only if every listed word is accepted / rejected as required (independent derivability oracle)', d.and_(ok, crit ^ 1), replay=rp)
+    msgs = messages(ev)
+    for w in set(acc) | set(rej):
+        shown = w if w else 'ε'
+        job.oblige("word %r reported 'should be accepted' only if listed as accepted and not derivable" % w,
+                   d.and_(msgs.get("Error: word '%s' should be accepted" % shown, FALSE), (A[w] ^ 1 if w in acc else FALSE) ^ 1), replay=rp)
+        job.oblige("word %r reported 'should not be accepted' only if listed as rejected and derivable" % w,
+                   d.and_(msgs.get("Error: word '%s' should not be accepted" % shown, FALSE), (A[w] if w in rej else FALSE) ^ 1), replay=rp)
+    job.must_reach('OK is printed for some answer', ok)
+    job.must_reach('a complaint is printed for some answer', said(ev, lambda t: t != 'OK'))
+    # check_cfg_rejects has no try/except: an ill-formed grammar (a variable without rules) makes it raise RuntimeError, which is
+    # not an OK verdict and therefore no violation of the property
+    job.failures_as_obligations(replay=rp, ignore=lambda kind, msg: kind == 'RuntimeError')
+    job.sample_replays = 3
+    return job.solve()
+
+
 def jobs(tier):
     J = []
 
@@ -652,6 +810,24 @@ def jobs(tier):
     for s in ([ 'I', 0], ['C', 0, ['I', 0]], ['S', 0, ['C', 0, 0]], ['I', ['S', 0, 0]]):
         from .C06 import _shape_name
         add('dfa2regexp_%s' % _shape_name(s), job_dfa2regexp, n=2, k=2 if len(str(s)) < 18 else 1, shape=s, length=3, timeout=tmo)
+    # generic language checkers: every answer kind against every reference kind (file or word list)
+    add('lang_file_dfa_vs_dfa', job_lang, front='from_file', ans=['dfa', {'n': 2}], ref=['dfa', {'n': 2}], syms='ab', length=3, timeout=tmo)
+    add('lang_file_nfa_vs_dfa', job_lang, front='from_file', ans=['nfa', {'n': 2}], ref=['dfa', {'n': 2}], syms='a', length=3, timeout=tmo)
+    add('lang_file_dfa_vs_nfa', job_lang, front='from_file', ans=['dfa', {'n': 2}], ref=['nfa', {'n': 2, 'eps': 'ε'}], syms='a', length=3, timeout=tmo)
+    add('lang_file_regexp_vs_dfa', job_lang, front='from_file', ans=['regexp', {'shape': ['C', 0, ['I', 0]]}], ref=['dfa', {'n': 2}], syms='ab', length=3, timeout=tmo)
+    add('lang_file_dfa_vs_regexp', job_lang, front='from_file', ans=['dfa', {'n': 2}], ref=['regexp', {'shape': ['S', 0, ['I', 0]]}], syms='ab', length=3, timeout=tmo)
+    add('lang_file_cfg_vs_dfa', job_lang, front='from_file', ans=['cfg', {'family': 'ab', 'nsym': 5}], ref=['dfa', {'n': 2}], syms='ab', length=3, timeout=tmo)
+    add('lang_file_dfa_vs_cfg', job_lang, front='from_file', ans=['dfa', {'n': 2}], ref=['cfg', {'family': 'nest', 'nsym': 5}], syms='ab', length=3, timeout=tmo)
+    add('lang_words_nfa', job_lang, front='from_words', ans=['nfa', {'n': 2}], ref=['words', 'ε aa'], syms='a', length=3, max_states=2, timeout=tmo)
+    add('lang_words_nfa_k2', job_lang, front='from_words', ans=['nfa', {'n': 2, 'eps': 'ε'}], ref=['words', 'a ab'], syms='ab', length=2, max_states=2, timeout=tmo)
+    add('lang_words_regexp', job_lang, front='from_words', ans=['regexp', {'shape': ['C', 0, ['I', 0]]}], ref=['words', 'a ab abb'], syms='ab', length=3, timeout=tmo)
+    add('lang_words_regexp_eps', job_lang, front='from_words', ans=['regexp', {'shape': ['I', ['S', 0, 0]]}], ref=['words', '_ a aa aaa'], syms='ab', length=3, timeout=tmo)
+    add('lang_words_cfg', job_lang, front='from_words', ans=['cfg', {'family': 'ab', 'nsym': 6}], ref=['words', 'ab aab'], syms='ab', length=3, timeout=tmo)
+    add('lang_words_cfg_nest', job_lang, front='from_words', ans=['cfg', {'family': 'nest', 'nsym': 6}], ref=['words', 'ε ab'], syms='ab', length=3, timeout=tmo)
+    for fam, acc in (('ab', 'ab aab ε'), ('nest', 'ab aabb ε')):
+        add('cfg_accepts_rejects_%s' % fam, job_cfg_lists, front='accepts_rejects', family=fam, accepted=acc, rejected='a ba abab', timeout=tmo)
+        add('cfg_accepts_%s' % fam, job_cfg_lists, front='accepts', family=fam, accepted=acc.replace('ε', '_'), rejected='', timeout=tmo)
+        add('cfg_rejects_%s' % fam, job_cfg_lists, front='rejects', family=fam, accepted='', rejected='_ b abab', timeout=tmo)
     # job_chomsky_checker (cfg_check_chomsky judging wrong answers) is NOT registered: with four extra-rule bits on top of the
     # grammar bits the lifted cfg_to_chomsky + enumerator did not finish in 400 s (see DESIGN.md 9.3)
     add('cyk_checker_ab', job_cyk_checker, word='ab', timeout=tmo)
@@ -878,6 +1054,81 @@ def _replay_chomsky_checker(rp):
     return 'OK' in lines and not (same and post), {'printed': lines, 'same language': same, 'postconditions': post, 'answer': answer}
 
 
-REPLAY = {'chomsky_checker': _replay_chomsky_checker, 'cyk_checker': _replay_cyk_checker, 'derivation': _replay_derivation, 'compare': _replay_compare, 'complement': _replay_complement, 'product': _replay_product, 'reverse': _replay_reverse,
+def _nat_lang(kind, js, length):
+    """native text + independent membership predicate of a decoded language object"""
+    if kind == 'dfa':
+        from gambatools.dfa_algorithms import print_dfa
+        return print_dfa(nat.mk_dfa(js)), (lambda w: all(ch in js['Sigma'] for ch in w) and nat.ref_dfa_accepts(js, w)), len(js['Q'])
+    if kind == 'nfa':
+        from gambatools.nfa_algorithms import print_nfa
+        return print_nfa(nat.mk_nfa(js)), (lambda w: all(ch in js['Sigma'] for ch in w) and nat.ref_nfa_accepts(js, w)), len(js['Q'])
+    if kind == 'regexp':
+        import gambatools.regexp as R
+        lang = nat.ref_regexp_lang(js, length)
+        return R.print_regexp_simple(nat.mk_regexp(js)), (lambda w: w in lang), 0
+    if kind == 'cfg':
+        text = ''.join('%s -> %s\n' % (X, ''.join(rhs) or js.get('eps', 'ε')) for X, rhs in js['R'])
+        return text, (lambda w: nat.ref_cfg_accepts(js, w)), 0
+    raise ValueError(kind)
+
+
+def _replay_lang(rp):
+    import gambatools.notebook as NB
+    length = rp['length']
+    atext, ans, nstates = _nat_lang(rp['ans_kind'], rp['answer'], length)
+    atext = _garbage(atext, rp)
+    words = nat.words_upto(rp['syms'], length)
+    inb = lambda w: len(w) <= length and all(ch in rp['syms'] for ch in w)
+    if rp['front'] == 'from_file':
+        rtext, ref, _ = _nat_lang(rp['ref_kind'], rp['reference'], length)
+        fname = 'ref.' + rp['ref_kind']
+        saved = NB.read_utf8_text
+        NB.read_utf8_text = lambda filename: rtext
+        try:
+            lines = _capture(getattr(NB, 'check_%s_language_from_file' % rp['ans_kind']), atext, fname, length)
+        finally:
+            NB.read_utf8_text = saved
+        too_many = False
+    else:
+        refw = set('' if w in ('ε', '_') else w for w in rp['reference'].split())
+        ref = lambda w: w in refw
+        words = sorted(set(words) | refw, key=len)
+        fn = getattr(NB, 'check_%s_language_from_words' % rp['ans_kind'])
+        if rp['ans_kind'] in ('dfa', 'nfa'):
+            lines = _capture(fn, atext, rp['reference'], length, rp['max_states'])
+        else:
+            lines = _capture(fn, atext, rp['reference'], length)
+        too_many = rp['ans_kind'] in ('dfa', 'nfa') and 0 < rp['max_states'] < nstates
+    a = lambda w: inb(w) and ans(w)
+    crit = not rp.get('garbage') and not too_many and all(a(w) == ref(w) for w in words)
+    return _verdict(lines, words, a, ref, crit)
+
+
+def _replay_cfg_lists(rp):
+    import gambatools.notebook as NB
+    import gambatools.notebook_experimental as NX
+    text, ans, _ = _nat_lang('cfg', rp['answer'], 0)
+    if rp['front'] == 'accepts_rejects':
+        lines = _capture(NB.check_cfg_accepts_rejects, text, rp['accepted'], rp['rejected'])
+    elif rp['front'] == 'accepts':
+        lines = _capture(NX.check_cfg_accepts, text, rp['accepted'])
+    else:
+        lines = _capture(NX.check_cfg_rejects, text, rp['rejected'])
+    norm = lambda s: ['' if w in ('ε', '_') else w for w in s.split()]
+    acc, rej = norm(rp['accepted']), norm(rp['rejected'])
+    crit = all(ans(w) for w in acc) and not any(ans(w) for w in rej)
+    bad = 'OK' in lines and not crit
+    for l in lines:
+        if l.startswith("Error: word '"):
+            w = l.split("'")[1]
+            w = '' if w == 'ε' else w
+            if 'should not' in l:
+                bad = bad or not (w in rej and ans(w))
+            else:
+                bad = bad or not (w in acc and not ans(w))
+    return bad, {'printed': lines, 'criterion_holds': crit}
+
+
+REPLAY = {'lang': _replay_lang, 'cfg_lists': _replay_cfg_lists, 'chomsky_checker': _replay_chomsky_checker, 'cyk_checker': _replay_cyk_checker, 'derivation': _replay_derivation, 'compare': _replay_compare, 'complement': _replay_complement, 'product': _replay_product, 'reverse': _replay_reverse,
           'minimal': _replay_minimal, 'nfa2dfa': _replay_nfa2dfa, 'from_words': _replay_from_words,
           'accepts_rejects': _replay_accepts_rejects, 'dfa2regexp': _replay_dfa2regexp}
